@@ -112,7 +112,7 @@ def _val_noset(v):
     if type(v) in (list, tuple):
         return f'({type(v).__name__} ' + ' '.join(_val_noset(x) for x in v) + ')'
     if type(v) is dict:
-        return '(dict ' + ' '.join(f'{_val_noset(k)}:{_val_noset(x)}' for k, x in v.items()) + ')'
+        return '(dict ' + ' '.join(sorted(f'{_val_noset(k)}:{_val_noset(x)}' for k, x in v.items())) + ')'   # == ignores order
     if type(v) in (set, frozenset):
         return f'({type(v).__name__} ' + ' '.join(sorted(_val_noset(x) for x in v)) + ')'
     try:
